@@ -16,7 +16,7 @@ def showJson (l : List Export.JsonSym) : String :=
 
 def pathExists (fs : FileSys) (p : String) : Bool := fs.isFile p || fs.dirs.contains p
 
-/-- args: arch, cwd, root, search paths (`;`, `-`), files, toFile (0/1, `x` = the -o file cannot be created), exports (`nl,sym,json`, `-`; a trailing `!` = that export's file cannot be created)
+/-- args: arch, cwd, root, search paths (`;`, `-`), files, toFile (0/1, `x` = the -o file cannot be created, `w` = it opens but cannot be written), exports (`nl,sym,json`, `-`; a trailing `!` = that export's file cannot be created)
 out: exit \t stdout hex \t ofile hex or `-` \t message 0/1 \t exports written \t export contents… -/
 def runCli (args : List String) : String :=
   match args with
@@ -26,7 +26,7 @@ def runCli (args : List String) : String :=
     | some a =>
       let fs := parseFiles files
       let searchPaths := if sps = "-" then [] else (sps.splitOn ";").filter (· ≠ "")
-      let toFile := toFileS = "1" || toFileS = "x"
+      let toFile := toFileS = "1" || toFileS = "x" || toFileS = "w"
       let kinds := if exportsS = "-" then [] else (exportsS.splitOn ",").filter (· ≠ "")
       let spOk := searchPaths.all fun p => pathExists fs (absolutize cwd p)
       let asmRes := if spOk then assemble a fs searchPaths cwd root 2000000 else .error default
@@ -51,7 +51,7 @@ def runCli (args : List String) : String :=
               " prg=" ++ ",".intercalate (sortStrings (prg.map showLine)))
           | .error n => (false, "NLERR " ++ hexOfString n)
         | _ => (false, "BADKIND")
-      let out := Cli.main toFile { outputOpens := toFileS ≠ "x", searchPathsOk := spOk, assemble := assembleOk, link := linkRes,
+      let out := Cli.main toFile { outputOpens := toFileS ≠ "x", outputWrites := toFileS ≠ "w", searchPathsOk := spOk, assemble := assembleOk, link := linkRes,
                                    exports := exportRes.map (·.1) }
       let of := match out.ofile with | some b => (if b.isEmpty then "empty" else hexBytes b) | none => "-"
       let contents := "\t".intercalate ((exportRes.take out.exportsWritten).map (·.2))
